@@ -17,6 +17,7 @@ Line-protocol driver for the C20 model (`lake build c20drv`). All numbers are de
   univ <addrs> <slots> <classhashes>                 -> ok          (comma lists; reads are answered over this universe)
   base <n> <table>                                   -> ok          (reader returned by StateAtBlockNumber(n))
   unbase <n>                                         -> ok          (StateAtBlockNumber(n) fails from now on)
+  validate <B|D|N> <ntx> <malformation>              -> <valid|invalid> <ok:<n>|adapterr|panics>   (Envelope.Validate; the adapter on the same envelope)
   state <b> <block>  (view SnapshotForBlock(b), PreConfirmedStateAt(block))      -> notfound | nobase | <reads>
   statebi <b> <block> <index>                        -> notfound | broken | oob | nobase | <reads>
 
@@ -176,6 +177,35 @@ def aliasAgrees (ds : List Diff) (expect : Diff) : Bool :=
   showDiff (Alias.denote mem' r) == showDiff expect &&
     (List.range mem.length).all (fun a => mem'[a]? == mem[a]?)
 
+/-- the envelope a (kind, number of transactions, malformation name) triple denotes; the harness
+builds the real `starknet.PreConfirmedUpdateEnvelope` from the same triple (spec.go `wireEnvelope`).
+Slice malformations touch the LAST element and are no-ops for 0 transactions. -/
+def mkRaw (kind : String) (n : Nat) (how : String) : Option RawEnvelope :=
+  let txs : List (Option (Tx × Bool)) := (List.range n).map fun i => some ({ hash := i + 1, tag := i + 1 }, false)
+  let rcs : List (Option Rcpt) := (List.range n).map fun i => some { txHash := i + 1, tag := i + 1, events := 0 }
+  let dfs : List (Option Diff) := (List.range n).map fun _ => some {}
+  let setLast {α : Type} (l : List α) (x : α) : List α := if l.isEmpty then l else l.dropLast ++ [x]
+  let u : RawUpdate :=
+    match how with
+    | "short-receipts" => { txs := txs, receipts := rcs.dropLast, diffs := dfs }
+    | "short-diffs" => { txs := txs, receipts := rcs, diffs := dfs.dropLast }
+    | "long-receipts" => { txs := txs, receipts := rcs ++ [some { txHash := 99, tag := 99, events := 0 }], diffs := dfs }
+    | "nil-receipt" => { txs := txs, receipts := setLast rcs none, diffs := dfs }
+    | "nil-diff" => { txs := txs, receipts := rcs, diffs := setLast dfs none }
+    | "empty-tx" => { txs := setLast txs none, receipts := rcs, diffs := dfs }
+    | "bad-tx" => { txs := setLast txs (some ({ hash := n, tag := n }, true)), receipts := rcs, diffs := dfs }
+    | _ => { txs := txs, receipts := rcs, diffs := dfs }
+  let m : RawMeta :=
+    { ident := if how == "no-ident" then "" else "r", statusOk := how != "bad-status",
+      version := if how == "no-version" then "" else "0.14.0", timestamp := if how == "zero-timestamp" then 0 else 1,
+      hasSequencer := how != "no-sequencer", hasL1Gas := how != "no-l1gas", hasL2Gas := how != "no-l2gas",
+      hasL1DataGas := how != "no-l1datagas" }
+  match kind with
+  | "N" => some .noChange
+  | "D" => some (.delta m.ident u)
+  | "B" => some (.block m u)
+  | _ => none
+
 def showOutcome : Outcome → String
   | .changed _ aff => "changed " ++ showEntry aff
   | .noop => "noop"
@@ -251,6 +281,16 @@ def step (s : DState) (line : String) : DState × String :=
   | ["base", n, t] =>
     match nat? n, parseTables? t with
     | some n, some t => ({ s with bases := AMap.set s.bases n t }, "ok")
+    | _, _ => (s, "bad-op")
+  | ["validate", kind, n, how] =>
+    match nat? n, mkRaw kind (n.toNat?.getD 0) how with
+    | some _, some e =>
+      let v := if e.validate then "valid" else "invalid"
+      let a := match e.adapt with
+        | .ok ws => s!"ok:{ws.length}"
+        | .adaptError => "adapterr"
+        | .panics => "panics"
+      (s, s!"{v} {a}")
     | _, _ => (s, "bad-op")
   | ["unbase", n] =>
     match nat? n with
